@@ -110,6 +110,31 @@ CLAIMS = {
               "case matches that signature exactly and is reported as known finding KF2; any third value is a violation."),
         note="Known finding KF2 open (repair would change pinned regression values). Converged runs with all clusters non-empty only.",
         ref="DESIGN.md section 3, C17"),
+    "C03": dict(
+        technique="property-based testing (Hypothesis) with a sound positive-definiteness oracle (Cholesky, exact rational LDL^T on failure), optimiser level, floor semantics with boundary-valued eps, and end-to-end degenerate data",
+        text=("Covariances spanning 24 orders of magnitude of scale and any rank are solved and the result checked to be finite, exactly "
+              "symmetric, PD with finite log-determinant; the covariance floor is exercised with eps equal to the magnitude of entries "
+              "actually produced (the only way to hit < vs <=) against a recording pool; end-to-end runs on scaled, duplicated, "
+              "constant-sensor data must return finite fields and PD MRFs in every round."),
+        note="Runs that raise are outside 'runs that complete' (discarded, counted). PD oracle never rejects a truly PD float matrix.",
+        ref="DESIGN.md section 3, C03"),
+    "C07": dict(
+        technique="complete enumeration of the mask helper's small domain + Hypothesis joint runs judged with the exact DP oracle on hook-observed labelling inputs + differential single-vs-joint front end",
+        text=("All tuples of up to 5 (thorough 6) stacked lengths in 1..8 are enumerated for the mask; generated joint runs are checked "
+              "for boundary-respecting stacking, for beta x mask reaching the labelling step in every round, and for optimality/cost "
+              "under the within-series objective; ticc_joint_labels([X]) is compared bitwise with ticc_labels(X). On this tree the "
+              "labelling step receives the unmasked beta (known finding KF1): those runs must be exactly consistent with the "
+              "all-pairs objective, otherwise they are violations."),
+        note="Known finding KF1 open (repair changes 6 pinned regression outputs). Hook relabel_inputs supplies beta and the cost table.",
+        ref="DESIGN.md section 3, C07"),
+    "C13": dict(
+        technique="Hypothesis stateful (rule-based) machine over the public state containers with a snapshot model + the same invariants at every phase boundary of traced runs",
+        text=("Histories of assign / copy-with-fresh-clusters / deep-copy / in-place mutation / repopulate / statistics / optimise / "
+              "relabel are generated and after every step every live state must be a partition consistent with its labels, states "
+              "not targeted must be unchanged, deep copies must share no memory or list objects (incl. array-valued lambda/beta); "
+              "traced runs are checked the same way at each phase boundary, including late in-place mutation of states already handed on."),
+        note="In-place mutation is applied only to states that exclusively own their arrays; inverse_covariance (and, in the machine, the log-determinant) are scoring values the labelling phase refreshes on its input.",
+        ref="DESIGN.md section 3, C13"),
 }
 
 NOT_CLAIMED = {}
